@@ -220,7 +220,8 @@ def run(R):
         ah = tonic.body('status::Status::add_header')
         bb, t = ah.call1(name='encode')
         R.check(mentions_constdef(ah.origin(t['args'][0]), 'STANDARD_NO_PAD'), 'C04.R3', 'writer-engine', site(ah, bb), 'engine = %s' % show(ah.origin(t['args'][0])))
-        R.check(mentions_field(ah.origin(t['args'][1]), 'details'), 'C04.R3', 'writer-encodes-details', site(ah, bb), 'input = %s' % show(ah.origin(t['args'][1])))
+        inp_ = ah.origin(t['args'][1])
+        R.check(mentions_field(inp_, 'details') or term_contains(inp_, lambda x: is_call(x, name='details') and 'Status' in x[1]), 'C04.R3', 'writer-encodes-details', site(ah, bb), 'input = %s' % show(inp_))
         fh = tonic.body('status::Status::from_header_map')
         fc = family_call(tonic, fh, pat='base64::Engine::decode')
         if len(fc) != 1:
